@@ -279,6 +279,41 @@ def rule_parse(rep, idx):
         rep.add('RA', '%s:[%d,%d]' % (sp, lo, hi), got == want and not I.ub, pos(f.node) + ' hexasm::Parser::parseInteger',
                 'literal %s n, n in [%d,%d]: parseInteger yields %r, expected int32 range %r%s' % (
                     '-' if sp == 'minus' else '', lo, hi, got, want, ('; UB: %s' % I.ub) if I.ub else ''))
+    # the lexer delivers every decimal literal 0 .. 2^32-1 unchanged (no rejection, no clamping): its number branch is interpreted with
+    # strtoul's result ranging over value classes that are split until every branch is uniform
+    from .. import robust
+    lexf0 = idx.func('hexasm::Lexer::readToken')
+    todo = [(0, 0), (1, INT_MAX), (INT_MAX + 1, U32)]
+    budget = 40
+    while todo:
+        lo, hi = todo.pop(0)
+        key = 'lexer:literal[%d,%d]' % (lo, hi)
+        try:
+            r = robust.lexer_number(idx, 'hexasm', lo, hi)
+        except NeedSplit as e:
+            budget -= 1
+            if lo == hi or budget < 0:
+                rep.undecided('RA', key, 'lexer number branch not uniform: %s' % e, pos(lexf0.node))
+                continue
+            at = getattr(e, 'at', None)
+            mid = (lo + hi) // 2
+            if at and at[0] == 'sym':
+                for cand in (at[2] - 1, at[2]):
+                    if lo <= cand < hi:
+                        mid = cand
+                        break
+            todo[:0] = [(lo, mid), (mid + 1, hi)]
+            continue
+        if r[0] == 'throws':
+            rep.add('RA', key, False, pos(lexf0.node) + ' hexasm::Lexer::readToken',
+                    'a decimal literal with value in [%d,%d] (it fits in 32 bits) is rejected: %s' % (lo, hi, r[1]))
+            continue
+        _, v, tk, ub = r
+        same = isinstance(v, IV) and (v.lo, v.hi) == (lo, hi) and (lo == hi or (v.aff is not None and v.aff[0] == {'N': 1} and v.aff[1] == 0))
+        is_num = isinstance(tk, IV) and tk.concrete() and tk.lo == toks['NUMBER']
+        rep.add('RA', key, same and is_num and not ub, pos(lexf0.node) + ' hexasm::Lexer::readToken',
+                'the lexer delivers the literal unchanged as a NUMBER token' if same and is_num and not ub else
+                'literal n in [%d,%d]: the lexer delivers %r (token %r)%s' % (lo, hi, v, tk, '; UB: %s' % ub if ub else ''))
     # the lexer stores the literal as an unsigned 32-bit value obtained with strtoul base 10
     lexf = idx.func('hexasm::Lexer::readToken')
     ok = False
